@@ -124,7 +124,44 @@ func (m *mergeCtx) ps5ScratchOnly() {
 		}
 	}
 	if mk == nil {
-		rep.Unk("PS5l", "scratch-dir:"+core.FuncKey(mg), "Merge creates its scratch directory with os.MkdirAll", p.Pos(mg.Pos()), "no os.MkdirAll found")
+		// the directory may be prepared by a helper: a library function called by Merge that calls os.MkdirAll and returns the path
+		for _, b := range mg.Blocks {
+			for _, in := range b.Instrs {
+				c, ok := in.(*ssa.Call)
+				if !ok {
+					continue
+				}
+				f := c.Common().StaticCallee()
+				if f == nil || !p.InLib(f) {
+					continue
+				}
+				makes := false
+				for _, fb := range f.Blocks {
+					for _, fi := range fb.Instrs {
+						if fc, ok := fi.(*ssa.Call); ok && core.StaticCalleeIs(fc.Common(), "os.MkdirAll") {
+							makes = true
+						}
+					}
+				}
+				if !makes {
+					continue
+				}
+				if f.Signature.Results().Len() >= 1 && f.Signature.Results().At(0).Type().String() == "string" {
+					if f.Signature.Results().Len() == 1 {
+						mk = c
+					} else {
+						for _, r := range *c.Referrers() {
+							if ex, ok := r.(*ssa.Extract); ok && ex.Index == 0 {
+								mk = ex
+							}
+						}
+					}
+				}
+			}
+		}
+	}
+	if mk == nil {
+		rep.Unk("PS5l", "scratch-dir:"+core.FuncKey(mg), "Merge creates its scratch directory with os.MkdirAll (itself or through a helper that returns the path)", p.Pos(mg.Pos()), "no os.MkdirAll found")
 		return
 	}
 	n := 0
